@@ -162,3 +162,58 @@ Proof.
   unfold qrun. split; [exact P|]. split; [exact G|]. destruct I as [I1 _]. rewrite P, G in I1. 
   rewrite Nat.add_0_r, Nat.add_0_r in I1. symmetry. exact I1.
 Qed.
+
+(* ---- Reactor._select as translated: one pass of the write loop ------------------------------------------------------- *)
+(* a pass in which the socket has nothing to read; select() reports the socket writable whenever that was asked for, and the
+   outbox readable exactly when it holds a frame (src_queue_whole_calls) *)
+Definition sel_for (s : rstate) : fdset * fdset :=
+  ((false, match outbox s with [] => false | _ :: _ => true end), (true, false)).
+Definition offered (s : rstate) : nat :=
+  match buffer s with [] => match outbox s with f :: _ => length f | [] => O end | _ :: _ => length (buffer s) end.
+Definition rstep_sel (rr : PM (option bool)) (s : rstate) (e : rev_) : rstate :=
+  match e with
+  | Put f => st (Reactor_write f (mkp s false))
+  | Iter o => st (Reactor_select (sel_for s) rr GetHead (conv o (offered s)) (mkp s false))
+  end.
+
+Lemma st_last_call : forall (call : PM (option bool)) s, st (pfn (pif_call true call pfall) s) = st (call s).
+Proof.
+  intros call s. unfold pfn, pif_call, pbind, pfall, preturn, pret.
+  destruct (call s) as [v s'|e s'|s']; [|reflexivity|reflexivity]. destruct v as [[|]|]; reflexivity.
+Qed.
+
+Theorem rstep_sel_eq : forall rr s e, rstep_sel rr s e = rstep s e.
+Proof.
+  intros rr s e. rewrite <- rstep_src_eq. destruct e as [f|o]; [reflexivity|].
+  unfold rstep_sel, rstep_src, Reactor_select, sel_for, offered.
+  destruct (buffer s) as [|b bt] eqn:B.
+  - destruct (outbox s) as [|f rest] eqn:O.
+    + unfold pfn, pbind. cbn [rs buffer]. rewrite B. cbn. reflexivity.
+    + change (st (pfn (fun s0 : pstate =>
+               let want_read := (true, false) in
+               let want_write := (false, false) in
+               let '(want_read0, want_write0) :=
+                 if negb (bytes_eqb (buffer (rs s0)) []) then (want_read, fd_add_sock want_write) else (fd_add_outbox want_read, want_write) in
+               let r := fd_inter want_read0 (fst ((false, true), (true, false))) in
+               let w := fd_inter want_write0 (snd ((false, true), (true, false))) in
+               pif_call (fst r) rr (pif_call (snd r) (Reactor_outbox_read_ready GetHead (conv o (length f)))
+                 (pif_call (fst w) (Reactor_socket_write_ready (conv o (length f))) pfall)) s0) (mkp s false))
+              = st (Reactor_outbox_read_ready GetHead (conv o (length f)) (mkp s false))).
+      unfold pfn at 1, pbind at 1. cbn [rs buffer]. rewrite B. cbn [bytes_eqb negb fd_add_outbox fd_inter fst snd andb pif_call].
+      fold (pfn (pif_call true (Reactor_outbox_read_ready GetHead (conv o (length f))) pfall) (mkp s false)).
+      apply st_last_call.
+  - change (length (buffer s)) with (length (buffer s)).
+    unfold pfn at 1, pbind at 1. cbn [rs buffer]. rewrite B.
+    assert (E : bytes_eqb (b :: bt) [] = false) by reflexivity. rewrite E.
+    cbn [negb fd_add_sock fd_inter fst snd andb pif_call].
+    unfold pbind, preturn, pfall, pret.
+    destruct (Reactor_socket_write_ready (conv o (length (b :: bt))) (mkp s false)) as [v s'|e s'|s']; [|reflexivity|reflexivity].
+    destruct v as [[|]|]; reflexivity.
+Qed.
+
+Definition rrun_sel (rr : PM (option bool)) (es : list rev_) : rstate := fold_left (rstep_sel rr) es rstate0.
+Theorem rrun_sel_eq : forall rr es, rrun_sel rr es = rrun es.
+Proof.
+  intros rr es. unfold rrun_sel, rrun. generalize rstate0. induction es as [|e t IH]; intro s; [reflexivity|].
+  cbn [fold_left]. rewrite rstep_sel_eq. apply IH.
+Qed.
